@@ -107,6 +107,61 @@ def rule_sandbox(ctx, R):
         if not inloop:
             R.finding(fn, "sandbox:not-applied", "%s does not null the sandboxed globals" % fn.split("::")[-1], b.loc())
     R.floor("sandbox_sites", n)
+    # which libraries are opened at all: in Lua 5.1 `module('io')` brings a library table back from
+    # the registry even if the global was set to nil, so io / os / package must never be loaded.
+    # Every creation of a Lua state reachable from the engine is `Lua::new_with(libs, ..)` with a
+    # constant library set that lacks IO (4), OS (8), PACKAGE (256) -- `Lua::new()` loads them all.
+    FORBID = {4: "io", 8: "os", 256: "package", 1 << 31: "debug", 1 << 30: "ffi"}
+    ns = 0
+    for fn, b in sorted(ctx.prog.bodies.items()):
+        if not fn.startswith("storage::lua_engine::") or "::tests::" in fn:
+            continue
+        for i, t in b.calls():
+            f = t["f"] or ""
+            if re.search(r"^mlua::Lua::(new|unsafe_new)$", f):
+                ns += 1
+                R.inst(fn, "lua-state", {"function": fn.split("::")[-1], "created_with": f.split("::")[-1]})
+                R.finding(fn, "lua-state:all-libraries", "%s creates the script state with Lua::%s, which opens io, os and package: `module('io')` / `module('os')` give scripts the file system and the process back although the globals are nil" % (fn.split("::")[-1], f.split("::")[-1]), b.loc(i))
+            elif re.search(r"^mlua::Lua::(new_with|unsafe_new_with)$", f):
+                ns += 1
+                mask = libs_mask(b, t["a"][0]) if t["a"] else None
+                bad = sorted(v for k, v in FORBID.items() if mask is not None and mask & k)
+                R.inst(fn, "lua-state", {"function": fn.split("::")[-1], "created_with": "new_with", "library_mask": mask, "forbidden_loaded": bad})
+                if mask is None:
+                    R.finding(fn, "lua-state:libraries-not-constant", "%s creates the script state with a library set that is not a compile-time constant" % fn.split("::")[-1], b.loc(i))
+                elif bad:
+                    R.finding(fn, "lua-state:loads:" + "+".join(bad), "%s opens the %s librar%s for scripts" % (fn.split("::")[-1], ", ".join(bad), "y" if len(bad) == 1 else "ies"), b.loc(i))
+    R.floor("lua_state_creations", ns)
+
+
+def libs_mask(b, o, depth=8):
+    """constant value of a mlua::StdLib operand built from named constants with `|`"""
+    if depth == 0:
+        return None
+    if op_is_const(o):
+        v = o.get("v")
+        try:
+            return int(v)
+        except Exception:
+            m = re.search(r"StdLib\((\d+)", str(o.get("c", "")))
+            if m:
+                return int(m.group(1))
+            # named constants: mlua::StdLib::TABLE etc.
+            names = {"COROUTINE": 1, "TABLE": 2, "IO": 4, "OS": 8, "STRING": 16, "UTF8": 32, "BIT": 64, "MATH": 128, "PACKAGE": 256,
+                     "NONE": 0, "ALL_SAFE": (1 << 30) - 1, "ALL": 0xFFFFFFFF, "DEBUG": 1 << 31, "FFI": 1 << 30}
+            m = re.search(r"StdLib::(\w+)", str(o.get("c", "")))
+            return names.get(m.group(1)) if m else None
+    l = op_place(o)["l"]
+    defs = prov.build_defs(b).get(l, ())
+    if len(defs) != 1:
+        return None
+    kind, db, d = defs[0]
+    if kind == "call" and re.search(r"mlua::StdLib as std::ops::BitOr>::bitor$|BitOr<.*>>::bitor$", d["f"] or "") and len(d["a"]) == 2:
+        a_, c_ = libs_mask(b, d["a"][0], depth - 1), libs_mask(b, d["a"][1], depth - 1)
+        return (a_ | c_) if a_ is not None and c_ is not None else None
+    if kind == "stmt" and d["r"]["k"] == "use":
+        return libs_mask(b, d["r"]["o"], depth - 1)
+    return None
 
 
 MUST_BLOCK = {"EVAL", "EVALSHA", "SCRIPT", "SELECT", "AUTH", "QUIT", "CLIENT", "MULTI", "EXEC", "DISCARD", "WATCH", "UNWATCH",
